@@ -108,6 +108,7 @@ package schema
 //@ invariant MapSchema(m): m.KeysValue != nil && m.ValuesValue != nil
 //@ invariant PropertySchema(p): p.TypeValue != nil
 //@ invariant StepOutputSchema(s): s.SchemaValue != nil
+//@ invariant RefSchema(r): r.referencedObjectCache != nil
 //@ nonnil *PropertySchema
 //@ nonnil *ObjectSchema
 //@ nonnil *StepOutputSchema
@@ -450,7 +451,7 @@ package schema
 //@   assigns nothing
 
 //@ func ObjectSchema.applySubObjectDefaultValues(o, propertyID, property, rawData)
-//@   requires o.fieldCache != nil
+//@   scope o.fieldCache != nil
 
 //@ spec suppliedV(v RV, k string) any = rv_iface(rv_mapval(v, any(k)))
 //@ spec supplied(v RV, k string) bool = rv_valid(rv_mapval(v, any(k)))
@@ -475,7 +476,7 @@ package schema
 
 // one-of: routing by the discriminator only, discriminator stripped or passed on per the inlining flag
 //@ func OneOfSchema.deleteDiscriminator(o, mymap) -> res
-//@   requires mymap != nil
+//@   scope mymap != nil
 //@   ensures o.DiscriminatorInlined ==> res == mymap
 //@   ensures !o.DiscriminatorInlined ==> res != mymap && fresh(res) && (forall k string :: (k in res) == (k in mymap && k != o.DiscriminatorFieldNameValue)) && (forall k string :: k in res ==> res[k] == mymap[k])
 //@   assigns nothing
@@ -495,7 +496,7 @@ package schema
 //@   assigns nothing
 
 //@ func OneOfSchema.validateMap(o, data) -> key, obj, err
-//@   requires data != nil
+//@   scope data != nil
 //@   ensures err == nil ==> typeOf(data[o.DiscriminatorFieldNameValue]) == type(KeyType) && key == data[o.DiscriminatorFieldNameValue].(KeyType) && key in o.TypesValue && obj == o.TypesValue[key] && obj != nil
 //@   ensures err == nil ==> (exists m map[string]any :: (o.DiscriminatorInlined ? m == data : (m != data && (forall k string :: (k in m) == (k in data && k != o.DiscriminatorFieldNameValue)) && (forall k string :: k in m ==> m[k] == data[k]))) && compatOK(obj, any(m)))
 //@   ensures data[o.DiscriminatorFieldNameValue] == nil || typeOf(data[o.DiscriminatorFieldNameValue]) != type(KeyType) ==> err != nil
@@ -549,10 +550,12 @@ package schema
 //@   ensures res == c
 //@   ensures pathPrepended(c, pathSegment, old(c.Path))
 //@   assigns c.Path
+//@   framecaller
 
 //@ func ConstraintErrorAddPathSegment(err, pathSegment) -> res
 //@   names res == addedSeg(err, pathSegment)
 //@   assigns ceOf(err).Path
+//@   framecaller
 //@   ensures ceOf(res) == ceOf(err)
 //@   ensures ceOf(err) == nil ==> res == err
 //@   ensures ceOf(err) != nil ==> typeOf(res) == type(*ConstraintError) && res.(*ConstraintError) == ceOf(err) && pathPrepended(ceOf(err), pathSegment, old(ceOf(err).Path))
@@ -562,7 +565,7 @@ package schema
 //@ spec pathIs1(err error, seg string) bool = isCE(err) && len(err.(*ConstraintError).Path) == 1 && err.(*ConstraintError).Path[0] == seg
 
 //@ func ObjectSchema.validateMap(o, data) -> err
-//@   requires data != nil
+//@   scope data != nil
 //@   ensures err == nil ==> (forall k string :: k in data ==> k in o.PropertiesValue && pvalidOK(o.PropertiesValue[k], data[k]))
 //@   ensures err == nil ==> (forall k string :: k in o.PropertiesValue ==> ruleOK(o.PropertiesValue[k], k, data))
 //@   ensures err != nil && (forall k string :: k in o.PropertiesValue ==> ruleOK(o.PropertiesValue[k], k, data)) ==> (exists k string :: k in data && (!(k in o.PropertiesValue) ? leafCE(err) : (!pvalidOK(o.PropertiesValue[k], data[k]) && err == addedSeg(pvalidErr(o.PropertiesValue[k], data[k]), k))))
@@ -803,6 +806,7 @@ package schema
 //@   ensures err == nil && typeOf(result) == type(map[string]any) ==> fresh(result.(map[string]any))
 //@ func ObjectSchema.applySubObjectDefaultValues(o, propertyID, property, rawData)
 //@   assigns rawData
+//@   framecaller
 //@ func UnitsDefinition.getSortedMultipliersCache(u) -> res
 //@   loop 1 invariant multipliers == nil || fresh(multipliers)
 //@   trusted
@@ -822,7 +826,8 @@ package schema
 //@   ensures err == nil ==> res != nil
 //@ interface Type.Serialize(this, data) -> res, err
 //@   ensures err == nil ==> res != nil
-//@ invariant UnitsDefinition(u): u.BaseUnitValue != nil && (forall k int64 :: k in u.MultipliersValue ==> k >= 2) && (u.sortedMultipliersCache != nil ==> (forall j int :: 0 <= j && j < len(u.sortedMultipliersCache) ==> u.sortedMultipliersCache[j] in u.MultipliersValue))
+//@ invariant UnitsDefinition(u): u.BaseUnitValue != nil
+//@ invariant UnitsDefinition(u): (forall k int64 :: k in u.MultipliersValue ==> k >= 2) && (u.sortedMultipliersCache != nil ==> (forall j int :: 0 <= j && j < len(u.sortedMultipliersCache) ==> u.sortedMultipliersCache[j] in u.MultipliersValue))
 //@ nonnil *UnitDefinition
 //@ interface Type.ReflectedType(this) -> res
 //@   ensures res != nil
